@@ -144,6 +144,9 @@ GSpec == GInit /\ [][GNext]_gvars
 \* violating state); the search does not continue past a violation (CONSTRAINT NotYetBad)
 NotYetBad == ~(Bad /\ running = None)
 OneWaiter == Cardinality(waiting) <= 1
+\* a blocked PutMany already holds some of its (sorted) key locks in the real code; the model acquires
+\* them all at once (same safety behaviours), so such schedules cannot be steered gate by gate
+NoManyWait == \A w \in waiting : op[w].kind # "PutMany"
 EmitViol  == (running = None /\ Bad /\ Len(hist) > 0) =>
                 PrintT(<<"BEHAVIOUR", ToJson([cfg |-> CfgRec,
                                               steps |-> hist])>>)
